@@ -30,8 +30,7 @@ WF_NAME = {'circuit': 'circuit', 'unitary': 'synthesis', 'state': 'stateprep', '
 # job sets
 # ----------------------------------------------------------------------------------------------
 
-def model_spec(n, shape, gates, rng=None):
-    return dict(n=n, edges=W.graph_edges(shape, n, rng), gates=W.GATESETS[gates], gs=gates, shape=shape)
+model_spec = W.model_spec
 
 
 def quick_jobs(rng: random.Random) -> list[dict]:
@@ -48,8 +47,7 @@ def quick_jobs(rng: random.Random) -> list[dict]:
         for lvl in (1, 2):
             J.append(W.job('circuit', cs, ms, lvl, seed=rng.randrange(1000), tag=tag))
     J.append(W.job('unitary', None, model_spec(2, 'all', 'default'), 1, n=2, iseed=1, tag='utry'))
-    J += known_jobs()
-    return J
+    return known_jobs() + J
 
 
 def known_jobs() -> list[dict]:
@@ -308,41 +306,6 @@ def correspondence(ctx: vf.Ctx, count: int):
 # main
 # ----------------------------------------------------------------------------------------------
 
-def theorem_failure_search(ctx: vf.Ctx, prop: str, budget: float) -> None:
-    """A generated theorem / the translator no longer checks: use the checker's counter-branches to pick input
-    classes and run the real compile() on them."""
-    import gen_workflows as G
-    rows = {r[0]: dict(name=r[0], kind=r[1], level=r[2], err=r[3], seed=r[4], model=r[5], width=r[6]) for r in G.configs()}
-    fails = W.failing_configs()
-    jobs = []
-    if fails:
-        mine = [n for n, a, b in fails if not (a if prop == 'c01' else b)]
-        ctx.cov['failing_theorems'] = mine[:40]
-        # one representative per (kind, level, model)
-        picked, seen = [], set()
-        for n in mine:
-            r = rows.get(n)
-            if r is None:
-                continue
-            k = (r['kind'], r['level'], r['model'])
-            if k not in seen:
-                seen.add(k)
-                picked.append(n)
-        picked = picked[:8]
-        cbs = W.counter_branches(picked)
-        ctx.cov['counter_branches'] = {n: cbs.get(n, {}).get(prop) for n in picked}
-        for n in picked:
-            cb = cbs.get(n, {}).get(prop) or {}
-            jobs += W.input_class_of(rows[n], cb.get('init'), cb.get('final'), ctx.rng, 3)
-    else:
-        # no diagnosis possible (translator aborted or the Coq side does not build): widen the standing search
-        jobs = thorough_jobs(ctx.rng, 6)
-    ctx.cov['directed_jobs'] = len(jobs)
-    res = W.run_jobs(jobs, budget)
-    for js, r in zip(jobs, res):
-        judge(ctx, js, r, 'directed search after a failed theorem')
-
-
 def run(ctx: vf.Ctx):
     warnings.simplefilter('ignore')
     ctx.uses_translators = BUILD['translators']
@@ -367,18 +330,17 @@ def run(ctx: vf.Ctx):
     ctx.trusted = ['Coq 8.16.1 kernel + vm_compute', 'harness/gen/gen_workflows.py (walks the live Workflow objects, fail-closed)',
                    'ExtrOcamlBasic extraction + OCaml 4.13.1 + coq/extract/wfcompat_driver.ml',
                    'harness/wfcommon.py oracles (numpy), python harness']
-    t0 = ctx.t0
     import time
     broken_before = len(ctx.broken)
+    t_c = time.time()
     if ctx.broken:
-        theorem_failure_search(ctx, 'c02', 170 if ctx.quick() else 900)
+        W.theorem_failure_search(ctx, 'c02', 110 if ctx.quick() else 900, judge, thorough_jobs)
     # ---- correspondence ---------------------------------------------------------------------
     if ctx.extract_ok.get('wfcompat'):
         correspondence(ctx, ctx.n(400, 4000))
     # ---- supporting real-compile() search ------------------------------------------------------
     jobs = quick_jobs(ctx.rng) if ctx.quick() else thorough_jobs(ctx.rng, 100)
-    budget = (200 if not broken_before else 60) if ctx.quick() else 1500
-    budget = max(30, budget - max(0, (time.time() - t0) - 60)) if ctx.quick() else budget
+    budget = max(60.0, 175.0 - (time.time() - t_c)) if ctx.quick() else 1500
     res = W.run_jobs(jobs, budget)
     for js, r in zip(jobs, res):
         judge(ctx, js, r, 'supporting search')
